@@ -524,7 +524,10 @@ func hoistTVar(unresT []string, lfd LetFuncDef) frt.Tuple2[[]string, LetFuncDef]
 func InferLfd(tvc TypeVarCtx, lfd LetFuncDef) RootFuncDef {
 	rels := collectLfdRels(lfd)
 	updateResolver(tvc.resolver, rels)
-	nlfd := resolveLfd(tvc.resolver, lfd)
+	nlfd1 := resolveLfd(tvc.resolver, lfd)
+	rels2 := collectLfdRels(nlfd1)
+	updateResolver(tvc.resolver, rels2)
+	nlfd := resolveLfd(tvc.resolver, nlfd1)
 	unresTvs := frt.Pipe(collectTVarLfd(nlfd), slice.Distinct)
 	newTvs, nlfd2 := frt.Destr2(hoistTVar(unresTvs, nlfd))
 	return RootFuncDef{Tparams: newTvs, Lfd: nlfd2}
